@@ -291,7 +291,10 @@ def run_check(mod, tier, seed):
     time_cap = float(os.environ["VERIF_TIME_CAP"]) if os.environ.get("VERIF_TIME_CAP") else None
     res = explore(mod, tier, seed, time_cap=time_cap)
     known = load_known(pid)
-    rdir = os.path.join(VERIF, "replays", pid)
+    if os.environ.get("VERIF_EVIDENCE_DIR"):  # mutant / seeded campaigns keep their replays with their evidence
+        rdir = os.path.join(os.environ["VERIF_EVIDENCE_DIR"], "replays", pid)
+    else:
+        rdir = os.path.join(VERIF, "replays", pid)
     lines, n_viol, known_hit, unreproduced = [], 0, {}, {}
     for kind in sorted(res["viol"]):
         n, examples = res["viol"][kind]
